@@ -123,12 +123,13 @@ def ensure_coq_built(targets=None, props=()):
             return False, p.stdout[-3000:]
         # Print Assumptions report of the property files
         os.makedirs(os.path.join(COQ, "assumptions"), exist_ok=True)
+        os.makedirs(os.path.join(VERIF, "build", "assum_tmp"), exist_ok=True)
         for prop in props:
             src = os.path.join(COQ, "theories", "Props", f"{prop}.v")
             rep = os.path.join(COQ, "assumptions", f"{prop}.txt")
             if os.path.exists(src) and (not os.path.exists(rep) or os.path.getmtime(rep) < os.path.getmtime(src[:-2] + ".vo")):
                 q = subprocess.run(["timeout", "600", "coqc", "-Q", "theories", "BT", "-w", "-all",
-                                    "-o", os.path.join(VERIF, "build", f".{prop}.tmp.vo"), src],
+                                    "-o", os.path.join(VERIF, "build", "assum_tmp", f"{prop}.vo"), src],
                                    cwd=COQ, stdout=subprocess.PIPE, stderr=subprocess.STDOUT, text=True)
                 if q.returncode != 0:
                     return False, q.stdout[-3000:]
